@@ -313,7 +313,13 @@ class _MockMOFWBEMConnection(ResolverMixin, BaseRepositoryConnection):
                         # Only delete when total failure
                         del self.classes[ns][cc.classname]
                         raise
-        self.conn.CreateClass(cc, namespace=ns)
+        try:
+            self.conn.CreateClass(cc, namespace=ns)
+        except CIMError:
+            # The repository does not have the class as specified, so it
+            # must not stay in the local classes store.
+            del self.classes[ns][cc.classname]
+            raise
 
     def ModifyClass(self, *args, **kwargs):
         """
